@@ -138,6 +138,32 @@ class _StmtCanon(ast.NodeTransformer):
         self.depth += 1
         fn.body = self._stmts(fn.body)
         self.shadow, self.depth = saved_shadow, saved_depth
+        # a display of names / constants bound to a local that nothing reads any more (its loop was unrolled) is dead
+        loads = {n.id for n in ast.walk(fn) if isinstance(n, ast.Name) and isinstance(n.ctx, ast.Load)}
+
+        def pure_display(e):
+            if isinstance(e, (ast.Name, ast.Constant)):
+                return True
+            if isinstance(e, (ast.Tuple, ast.List, ast.Set)):
+                return all(pure_display(x) for x in e.elts)
+            if isinstance(e, ast.Dict):
+                return all(k is not None and pure_display(k) and pure_display(v) for k, v in zip(e.keys, e.values))
+            return False
+
+        def prune(body):
+            out = []
+            for st in body:
+                for field in ("body", "orelse", "finalbody"):
+                    v = getattr(st, field, None)
+                    if isinstance(v, list) and v and isinstance(v[0], ast.stmt) and not isinstance(st, (ast.FunctionDef, ast.ClassDef)):
+                        setattr(st, field, prune(v) or [ast.copy_location(ast.Pass(), st)])
+                if isinstance(st, ast.Assign) and len(st.targets) == 1 and isinstance(st.targets[0], ast.Name) \
+                        and st.targets[0].id not in loads and isinstance(st.value, (ast.Tuple, ast.List, ast.Dict, ast.Set)) and pure_display(st.value):
+                    continue
+                out.append(st)
+            return out
+
+        fn.body = prune(fn.body) or [ast.copy_location(ast.Pass(), fn)]
         return fn
 
     visit_AsyncFunctionDef = visit_FunctionDef
@@ -180,6 +206,14 @@ class _StmtCanon(ast.NodeTransformer):
             a.value, b.value = ife.body, ife.orelse
             new = ast.copy_location(ast.If(test=ife.test, body=[a], orelse=[b]), st)
             return self._one(new, before)
+        # `if not (p := e).exists(): ...` -> `p = e` first, when the walrus is the first thing the statement evaluates
+        if isinstance(st, (ast.If, ast.Assign, ast.Expr, ast.Return)) and self.depth:
+            root = st.test if isinstance(st, ast.If) else st.value
+            w = _first_evaluated_walrus(root) if root is not None else None
+            if w is not None and isinstance(w.target, ast.Name):
+                pre = ast.copy_location(ast.Assign(targets=[ast.Name(id=w.target.id, ctx=ast.Store())], value=w.value), st)
+                _replace_node(st, w, ast.copy_location(ast.Name(id=w.target.id, ctx=ast.Load()), w))
+                return self._one(pre, before) + self._one(st, before + [pre])
         # table-driven loop over a literal
         if isinstance(st, ast.For) and not st.orelse and self.depth:
             un = self._unroll(st, before)
@@ -244,6 +278,41 @@ class _StmtCanon(ast.NodeTransformer):
         return out
 
 
+def _first_evaluated_walrus(e):
+    """the NamedExpr that is evaluated before anything else in expression e (None if there is none in that position)"""
+    while True:
+        if isinstance(e, ast.NamedExpr):
+            return e
+        if isinstance(e, ast.UnaryOp):
+            e = e.operand
+        elif isinstance(e, ast.Call):
+            e = e.func
+        elif isinstance(e, (ast.Attribute, ast.Subscript, ast.Starred)):
+            e = e.value
+        elif isinstance(e, ast.Compare):
+            e = e.left
+        elif isinstance(e, ast.BoolOp):
+            e = e.values[0]
+        elif isinstance(e, ast.BinOp):
+            e = e.left
+        else:
+            return None
+
+
+def _replace_node(root, old, new):
+    for parent in ast.walk(root):
+        for field, v in ast.iter_fields(parent):
+            if v is old:
+                setattr(parent, field, new)
+                return True
+            if isinstance(v, list):
+                for i, x in enumerate(v):
+                    if x is old:
+                        v[i] = new
+                        return True
+    return False
+
+
 def _fold_const_attr(st):
     """after substitution: setattr(o, "k", v) / getattr(o, "k") with a now-constant name"""
     return st
@@ -264,6 +333,24 @@ def canonical_stmts(tree: ast.Module) -> ast.Module:
         elif isinstance(node, ast.AnnAssign) and isinstance(node.target, ast.Name) and node.value is not None and _is_literal(node.value):
             if counts.get(node.target.id) == 1:
                 consts[node.target.id] = node.value
+    # derived constants: a name bound once to another constant, or typing.get_args(<Literal[...] alias>)
+    literal_alias = {}
+    for node in tree.body:
+        if isinstance(node, ast.Assign) and len(node.targets) == 1 and isinstance(node.targets[0], ast.Name) and isinstance(node.value, ast.Subscript) \
+                and ast.unparse(node.value.value).split(".")[-1] == "Literal":
+            sl = node.value.slice
+            elts = sl.elts if isinstance(sl, ast.Tuple) else [sl]
+            if all(isinstance(e, ast.Constant) for e in elts):
+                literal_alias[node.targets[0].id] = ast.Tuple(elts=list(elts), ctx=ast.Load())
+    for node in tree.body:
+        tgt = node.targets[0] if isinstance(node, ast.Assign) and len(node.targets) == 1 else getattr(node, "target", None) if isinstance(node, ast.AnnAssign) else None
+        val = getattr(node, "value", None)
+        if isinstance(tgt, ast.Name) and val is not None and counts.get(tgt.id) == 1 and tgt.id not in consts:
+            if isinstance(val, ast.Name) and val.id in consts:
+                consts[tgt.id] = consts[val.id]
+            elif isinstance(val, ast.Call) and ast.unparse(val.func).split(".")[-1] == "get_args" and len(val.args) == 1 \
+                    and isinstance(val.args[0], ast.Name) and val.args[0].id in literal_alias:
+                consts[tgt.id] = literal_alias[val.args[0].id]
     # a constant that any function rebinds through `global` is not a constant
     for n in ast.walk(tree):
         if isinstance(n, ast.Global):
